@@ -212,6 +212,10 @@ class LineInjector:
         sys.setprofile(None)
 
 
+def _custom_sigint_handler(signum, frame):
+    raise KeyboardInterrupt()
+
+
 def layout_bits(pool):
     pp = pool.pool_params
     return ''.join('1' if b else '0' for b in (pp.pass_worker_id, pp.shared_objects is not None, pp.use_worker_state))
@@ -503,6 +507,13 @@ def main():
         import gc
         gc.collect()
         time.sleep(0.2)
+        disp = scen.get('sigint_disposition')
+        if disp == 'SIG_DFL':
+            signal.signal(signal.SIGINT, signal.SIG_DFL)
+        elif disp == 'SIG_IGN':
+            signal.signal(signal.SIGINT, signal.SIG_IGN)
+        elif disp == 'custom':
+            signal.signal(signal.SIGINT, _custom_sigint_handler)
         res['baseline'] = leak_snapshot()
     if scen.get('shapes'):
         # which exception shapes can be transported by which pickler (decided without mpire)
